@@ -120,7 +120,11 @@ class BodyMacroGen:
                 self.unbound_io.remove(v)
             if v not in self.bound and (private is None or v in force):
                 self.bound.append(v)
-        return ["clause", name, args, []]
+        conds = []
+        if private is None and self.bound and rng.random() < 0.22:
+            conds.append(self.cond_if(self.bound))
+            self.feats.add("attached_condition_in_macro_body")
+        return ["clause", name, args, conds]
 
     def binder(self):
         """let / if let / for binding a pending 'new' parameter or an unused local"""
@@ -614,7 +618,7 @@ def gen_input(rng):
 # ------------------------------------------------------------------ programs outside the hypotheses (one defect each)
 
 def defect_attached(rng):
-    """a condition attached to a clause of a macro body mentions a macro-local variable"""
+    """a condition attached to a clause of a macro body mentions a macro-local variable (inside the hypotheses since 931a20f)"""
     y, w = rng.sample(POOL, 2)
     pr = rng.choice(["lt", "le", "ne"])
     body = [["clause", "e0", [tv(par(0)), tv(lid(y, 0))], [["if", pr, [lid(y, 0), par(0)] if rng.random() < 0.5 else [par(0), lid(y, 0)]]]]]
@@ -658,6 +662,7 @@ def defect_unbound(rng):
 
 
 DEFECTS = [("attached", defect_attached), ("gensym", defect_gensym), ("unbound", defect_unbound)]
+INSIDE = {"attached"}      # templates that satisfy the hypotheses of the theorem (attached conditions: fixed by 931a20f)
 
 
 # ------------------------------------------------------------------ recursive macro tables (must be rejected)
